@@ -120,6 +120,12 @@ pub fn install() {
             };
             let loc = info.location().map(|l| format!(" at {}:{}", l.file(), l.line())).unwrap_or_default();
             LAST.with(|l| *l.borrow_mut() = format!("{}{}", msg, loc));
+            if QUIET.with(|q| q.get()) == 0 && msg.contains("unexpected hashing pattern") {
+                // the model hasher (hasher seam) is a partial function over the hashing patterns the code is known to use; a tree
+                // that hashes differently is outside the model of this check: a machinery exit with a clear message, never a verdict
+                eprintln!("MACHINERY: hasher seam mismatch: the code under test hashes in a pattern the model hasher of this check does not define ({}{}); the hash-class model does not apply to this tree", msg, loc);
+                std::process::exit(2);
+            }
             if QUIET.with(|q| q.get()) == 0 {
                 let in_subject = info.location().map(|l| l.file().starts_with("/repo/") || l.file().contains("/pdatastructs")).unwrap_or(false);
                 if in_subject {
